@@ -603,6 +603,18 @@ theorem nq_cloneTree : (∀ (chain : List (List Att)) (s : St) (t : Src), NodupQ
     exact ih2 (ih1 h)
 
 
+theorem nq_addLiteralAtt {s : St} (a : Att) (ss : Option String) (h : NodupQ s) : NodupQ (s.addLiteralAtt a ss) := by
+  unfold St.addLiteralAtt
+  repeat' split
+  all_goals first
+    | exact nq_ara _ _ _ h
+    | exact nq_ara _ _ _ (nq_ara (s := s.unique.2) _ _ _ h)
+
+theorem nq_addLiteralAtts (hd : Handler) (as : List Att) : ∀ (s : St), NodupQ s → NodupQ (addLiteralAtts hd s as) := by
+  induction as with
+  | nil => intro s h; exact h
+  | cons a as ih => intro s h; unfold addLiteralAtts; exact ih _ (nq_addLiteralAtt a _ h)
+
 theorem nq_execSetAttrs (env : Env) (as : List SetAttr) : ∀ (r : Run), NodupQ r.st → NodupQ (execSetAttrs env r as).st := by
   induction as with
   | nil => intro r h; exact h
@@ -649,7 +661,7 @@ theorem exec_nodup_both :
     unfold exec
     simp only [hsome]
     exact pending_attrs_nodup_qname [.endElement name] _
-      (ih (pending_attrs_nodup_qname [.addAtts _] _
+      (ih (nq_addLiteralAtts _ _ _
         (nq_execSets env use _ (pending_attrs_nodup_qname [.lreStart name _ _] _ h))))
   · intro env r k t chain hk h
     unfold exec
@@ -772,5 +784,148 @@ example :
     let s := run { v := { copyAttrNs := true, shadowCheck := true } } [.lreStart ⟨"", "o2"⟩ [⟨"z", "urn:other"⟩, ⟨"p", "urn:p"⟩] none]
     (s.cloneAttribute ⟨"z", "y"⟩ "urn:z" "1").1.pendAtts =
       [⟨⟨"xmlns", "z"⟩, "urn:other"⟩, ⟨⟨"xmlns", "p"⟩, "urn:p"⟩, ⟨⟨"xmlns", "ns0"⟩, "urn:z"⟩, ⟨⟨"ns0", "y"⟩, "1"⟩] := by decide
+
+/-! ## round 5: the last repairs -/
+
+theorem mem_of_mem_dedupLast {κ : Type} [DecidableEq κ] (key : Att → Option κ) (l : List Att) (b : Att) :
+    b ∈ dedupLast key l → b ∈ l := by
+  induction l with
+  | nil => intro h; exact h
+  | cons a as ih =>
+    unfold dedupLast
+    split
+    · split
+      · intro h; exact List.mem_cons_of_mem _ (ih h)
+      · intro h
+        rcases List.mem_cons.mp h with e | h
+        · exact e ▸ List.mem_cons_self
+        · exact List.mem_cons_of_mem _ (ih h)
+    · intro h
+      rcases List.mem_cons.mp h with e | h
+      · exact e ▸ List.mem_cons_self
+      · exact List.mem_cons_of_mem _ (ih h)
+
+theorem dedupLast_keys_nodup {κ : Type} [DecidableEq κ] (key : Att → Option κ) (l : List Att) :
+    ((dedupLast key l).filterMap key).Nodup := by
+  induction l with
+  | nil => simp [dedupLast]
+  | cons a as ih =>
+    unfold dedupLast
+    split
+    · rename_i k hk
+      split
+      · exact ih
+      · rename_i hany
+        simp only [List.filterMap_cons, hk]
+        refine List.nodup_cons.mpr ⟨?_, ih⟩
+        intro hm
+        obtain ⟨b, hb, hkb⟩ := List.mem_filterMap.mp hm
+        apply hany
+        exact List.any_eq_true.mpr ⟨b, mem_of_mem_dedupLast key as b hb, by simp [hkb]⟩
+    · rename_i hk
+      simp only [List.filterMap_cons, hk]
+      exact ih
+
+/-- **no two attributes of a delivered start tag have the same expanded name** once
+`C14-replace-attribute-with-same-expanded-name.diff` is in: whatever the pending attributes are, the attribute list
+handed to the FormatterListener has pairwise distinct (namespace URI as resolved by the engine at that moment, local name)
+pairs among its namespaced attributes (un-prefixed attributes are distinct by `pending_attrs_nodup_qname`). -/
+theorem no_duplicate_expanded_attr_fixed (s : St) (n : QN) (hv : s.v.dedupExpanded = true) (hp : s.pendName = some n) :
+    ∃ atts, s.flushPending.out.head? = some (Ev.start n atts) ∧ (atts.filterMap s.attKey).Nodup ∧
+      ∀ a ∈ atts, a ∈ s.pendAtts := by
+  refine ⟨dedupLast s.attKey s.pendAtts, ?_, dedupLast_keys_nodup _ _, fun a h => mem_of_mem_dedupLast _ _ _ h⟩
+  simp [St.flushPending, hp, hv]
+
+/-- the witness of `no_duplicate_expanded_attr_counterexample` on the repaired tree: only `q:x` is delivered -/
+example :
+    let s := run { v := { dedupExpanded := true } } [.lreStart ⟨"", "r"⟩ [⟨"p", "urn:U"⟩, ⟨"q", "urn:U"⟩] none,
+                     .addAtts [⟨⟨"p", "x"⟩, "1"⟩],
+                     .elemAttribute ⟨"q", "x"⟩ none (some "urn:U") "2", .flush]
+    s.out.head? = some (Ev.start ⟨"", "r"⟩ [⟨⟨"xmlns", "p"⟩, "urn:U"⟩, ⟨⟨"xmlns", "q"⟩, "urn:U"⟩, ⟨⟨"q", "x"⟩, "2"⟩]) := by decide
+
+/-- **literal attributes** with `C14-literal-attribute-keeps-namespace.diff` (and the shadow-safe look-up): whatever an
+attribute set did to the prefix on the pending element, the literal attribute ends up with a prefix bound to the
+namespace `n` it has in the stylesheet. -/
+theorem literal_attribute_keeps_namespace_fixed (s : St) (a : Att) (n b : String)
+    (hv : s.v.literalAttrResolve = true) (hs : s.v.shadowCheck = true)
+    (hp0 : a.name.pfx ≠ "") (hp1 : a.name.pfx ≠ "xmlns") (hp2 : a.name.pfx ≠ "xml")
+    (hn : n ≠ xmlnsURI) (hb : s.resultNs a.name.pfx = some b) (hctx : s.ns.createNew ≠ []) :
+    ∃ q : QN, ⟨q, a.val⟩ ∈ (s.addLiteralAtt a (some n)).pendAtts ∧ q.loc = a.name.loc ∧
+      (s.addLiteralAtt a (some n)).resultNs q.pfx = some n := by
+  have plain : ∀ (t : St) (p : String), p ≠ "" → p ≠ "xmlns" →
+      t.addResultAttribute ⟨p, a.name.loc⟩ a.val = t.addAtt ⟨p, a.name.loc⟩ a.val := by
+    intro t p h0 h2
+    exact St.addResultAttribute_plain t ⟨p, a.name.loc⟩ a.val false h2 (by intro e; injection e with e1 _; exact h0 e1)
+  have notxmlns : ∀ p, s.resultNs p = some n → p ≠ "xmlns" := by
+    intro p hb e; subst e
+    simp [St.resultNs, RNS.nsForPrefix] at hb
+    exact hn hb.symm
+  have invent : ∃ q : QN, ⟨q, a.val⟩ ∈ ((s.unique.2.addResultAttribute ⟨"xmlns", s.unique.1⟩ n).addResultAttribute
+        ⟨s.unique.1, a.name.loc⟩ a.val).pendAtts ∧ q.loc = a.name.loc ∧
+      ((s.unique.2.addResultAttribute ⟨"xmlns", s.unique.1⟩ n).addResultAttribute
+        ⟨s.unique.1, a.name.loc⟩ a.val).resultNs q.pfx = some n := by
+    obtain ⟨j, hj⟩ := St.unique_prefix s
+    have hne := ns_prefix_ne (toString j)
+    rw [← hj] at hne
+    rw [plain _ _ hne.2.2 hne.2.1]
+    exact ⟨⟨s.unique.1, a.name.loc⟩, mem_addAttribute _ _ _, rfl,
+      St.resultNs_after_decl s.unique.2 s.unique.1 n (by rw [St.unique_ns]; exact hctx) hne.1 hne.2.1⟩
+  unfold St.addLiteralAtt
+  simp only [hv, hp0, hp1, hp2, Bool.not_true, Bool.false_eq_true, Bool.or_self, decide_false, if_false, hb]
+  by_cases hnb : n = b
+  · subst hnb
+    rw [if_pos rfl]
+    have e : a.name = ⟨a.name.pfx, a.name.loc⟩ := rfl
+    rw [e, plain _ _ hp0 hp1]
+    exact ⟨⟨a.name.pfx, a.name.loc⟩, mem_addAttribute _ _ _, rfl, hb⟩
+  · rw [if_neg hnb]
+    cases hr : s.resultPrefix n with
+    | none => exact invent
+    | some p2 =>
+      dsimp only
+      by_cases hp2' : p2 = ""
+      · simp only [hp2', ne_eq, not_true_eq_false, if_false]
+        exact invent
+      · simp only [ne_eq, hp2', not_false_eq_true, if_true]
+        have hb2 := prefix_lookup_sound_fixed s hs n p2 hr
+        rw [plain _ _ hp2' (notxmlns _ hb2)]
+        exact ⟨⟨p2, a.name.loc⟩, mem_addAttribute _ _ _, rfl, hb2⟩
+
+/-- the witness of finding 11 on the model: the set re-binds `ns0`, the literal `ns0:x` is re-prefixed -/
+example :
+    let s0 : St := { v := { literalAttrResolve := true, shadowCheck := true } }
+    let s := run s0 [.lreStart ⟨"", "e"⟩ [⟨"ns0", "urn:c"⟩] none, .lreStart ⟨"", "e"⟩ [] none,
+                     .elemAttribute ⟨"ns0", "x"⟩ (some "urn:b") (some "urn:c") "u3"]
+    (s.addLiteralAtt ⟨⟨"ns0", "x"⟩, "w1"⟩ (some "urn:c")).pendAtts =
+      [⟨⟨"xmlns", "ns0"⟩, "urn:b"⟩, ⟨⟨"ns0", "x"⟩, "u3"⟩, ⟨⟨"xmlns", "ns1"⟩, "urn:c"⟩, ⟨⟨"ns1", "x"⟩, "w1"⟩] := by decide
+
+/-- `NamespacesHandler` with `C14-handler-own-bindings-first.diff`: (i) a prefix the element itself declares for output
+resolves to that declaration whatever is in the (inherited) excluded list; (ii) every namespace URI excluded for the parent
+stays excluded for the child, also where the child re-binds the prefix. -/
+theorem handler_own_bindings_first_fixed (h : Handler) (hv : h.ownFirst = true) :
+    (∀ n ∈ h.decls, (h.decls.find? (fun m => m.pfx = n.pfx)) = some n → h.getNamespace n.pfx = some n.uri) ∧
+      ∀ (parent : List NS), ∀ n ∈ parent, (h.copyExcluded parent).isExcludedURI n.uri = true := by
+  constructor
+  · intro n _ hf
+    simp [Handler.getNamespace, hv, hf]
+  · intro parent n hn
+    unfold Handler.copyExcluded
+    have hne : parent.isEmpty = false := by
+      cases parent with
+      | nil => cases hn
+      | cons _ _ => rfl
+    simp only [hne, Bool.false_eq_true, if_false]
+    split
+    · simp only [Handler.isExcludedURI, List.any_eq_true]
+      exact ⟨n, hn, by simp⟩
+    · simp only [Handler.isExcludedURI, List.any_eq_true]
+      cases hfind : (h.excluded.find? (fun m => m.pfx = n.pfx)) with
+      | none =>
+        refine ⟨n, List.mem_append_left _ (List.mem_filter.mpr ⟨hn, by simp [hfind]⟩), by simp⟩
+      | some m =>
+        by_cases hu : m.uri = n.uri
+        · exact ⟨m, List.mem_append_right _ (List.mem_of_find?_eq_some hfind), by simp [hu]⟩
+        · refine ⟨n, List.mem_append_left _ (List.mem_filter.mpr ⟨hn, ?_⟩), by simp⟩
+          simp [hfind, hu]
 
 end XalanModel.Props.C14
